@@ -27,7 +27,97 @@ spec fn src_utf8_ok<P: Iterator<Item = u8>>(h: P) -> bool { iter_lawful(h) && ut
 //@}
 //@endimpl
 
+// ---- str entry points: StrIterator feeds the bytes of the str, left to right, each once ----
+//@item src/charwise/iter.rs struct StrIterator
+//@rules keeppub
+//@end
+//@impl src/charwise/iter.rs impl<P> StrIterator<P>
+//@fn new
+//@ret r
+//@head{
+    ensures r.inner == inner, r.pos == 0
+//@}
+//@endimpl
+
+// trusted: the bytes of a str are well-formed UTF-8 (in the sense of the table the decoder is verified against) and
+// there are at most isize::MAX of them
+#[verifier::external_body]
+proof fn axiom_str_bytes_utf8(s: &str)
+    ensures utf8_ok(vstd::string::StringSliceAdditionalSpecFns::spec_bytes(s)),
+        vstd::string::StringSliceAdditionalSpecFns::spec_bytes(s).len() <= isize::MAX,
+{
+}
+spec fn stri_bytes<P: AsRef<str>>(it: StrIterator<P>) -> Seq<u8> { vstd::string::StringSliceAdditionalSpecFns::spec_bytes(it.inner.as_ref_spec()) }
+spec fn stri_rem<P: AsRef<str>>(it: StrIterator<P>) -> Seq<u8> {
+    if it.pos <= stri_bytes(it).len() { stri_bytes(it).skip(it.pos as int) } else { Seq::empty() }
+}
+// StrIterator obeys vstd's prophetic iterator laws with remaining() == the unread bytes of the str: the trait impl
+// below is checked against those laws
+impl<P: AsRef<str>> vstd::std_specs::iter::IteratorSpecImpl for StrIterator<P> {
+    closed spec fn obeys_prophetic_iter_laws(&self) -> bool { true }
+    closed spec fn remaining(&self) -> Seq<u8> { stri_rem(*self) }
+    closed spec fn will_return_none(&self) -> bool { true }
+    closed spec fn decrease(&self) -> Option<nat> { Some(stri_rem(*self).len()) }
+    closed spec fn peek(&self, i: int) -> Option<u8> { if 0 <= i < stri_rem(*self).len() { Some(stri_rem(*self)[i]) } else { None } }
+}
+//@impl src/charwise/iter.rs impl<P> Iterator for StrIterator<P>
+//@keeptrait
+//@fn next
+//@start{
+    proof { axiom_str_bytes_utf8(self.inner.as_ref_spec()); }
+//@}
+//@endimpl
+
 //@impl src/charwise.rs impl<V> CharwiseDoubleArrayAhoCorasick<V>
+//@fn find_iter
+//@rules R8c
+//@ret r
+//@head{
+    requires cw_pma_inv(self)
+    ensures cw_find_inv(r), r.pma == self, enum_count(r.haystack.inner) == 0,
+        enum_rest(r.haystack.inner) == vstd::string::StringSliceAdditionalSpecFns::spec_bytes(haystack.as_ref_spec()),
+//@}
+//@start{
+    proof {
+        let b = vstd::string::StringSliceAdditionalSpecFns::spec_bytes(haystack.as_ref_spec());
+        axiom_str_bytes_utf8(haystack.as_ref_spec());
+        assert(b.skip(0) =~= b);
+    }
+//@}
+//@fn find_overlapping_iter
+//@rules R8c
+//@ret r
+//@head{
+    requires cw_pma_inv(self)
+    ensures cw_ovl_inv(r), r.pma == self, enum_count(r.haystack.inner) == 0,
+        enum_rest(r.haystack.inner) == vstd::string::StringSliceAdditionalSpecFns::spec_bytes(haystack.as_ref_spec()),
+        r.state_id == 0, r.output_pos.is_none(),
+//@}
+//@start{
+    proof {
+        let b = vstd::string::StringSliceAdditionalSpecFns::spec_bytes(haystack.as_ref_spec());
+        axiom_str_bytes_utf8(haystack.as_ref_spec());
+        assert(b.skip(0) =~= b);
+        if self.match_kind is Standard { lemma_root_live_cw(self.states@, self.mapper.table@, false); }
+    }
+//@}
+//@fn find_overlapping_no_suffix_iter
+//@rules R8c
+//@ret r
+//@head{
+    requires cw_pma_inv(self)
+    ensures cw_nosuf_inv(r), r.pma == self, enum_count(r.haystack.inner) == 0,
+        enum_rest(r.haystack.inner) == vstd::string::StringSliceAdditionalSpecFns::spec_bytes(haystack.as_ref_spec()),
+        r.state_id == 0,
+//@}
+//@start{
+    proof {
+        let b = vstd::string::StringSliceAdditionalSpecFns::spec_bytes(haystack.as_ref_spec());
+        axiom_str_bytes_utf8(haystack.as_ref_spec());
+        assert(b.skip(0) =~= b);
+        if self.match_kind is Standard { lemma_root_live_cw(self.states@, self.mapper.table@, false); }
+    }
+//@}
 //@fn find_iter_from_iter
 //@rules R8c
 //@ret r
